@@ -259,7 +259,7 @@ fn cmd_one(args: &[String]) -> i32 {
     let (auto_fam, fam_idx) = driver::family_of(&fams, i);
     let fam = arg_val(args, "--family").unwrap_or_else(|| auto_fam.to_string());
     let fam_static = fams.iter().find(|f| **f == fam).copied().unwrap_or(fams[0]);
-    let case = check.gen_indexed(base, i, fam_static, fam_idx, tier);
+    let case = driver::gen_case(check.as_ref(), base, i, fam_static, fam_idx, tier);
     if args.iter().any(|a| a == "--case") {
         println!("{}", serde_json::to_string_pretty(&case).unwrap());
     }
@@ -289,7 +289,7 @@ fn cmd_determinism(args: &[String]) -> i32 {
             while i < n {
                 let seed = base + i;
                 let (fam, fam_idx) = driver::family_of(&fams, i);
-                let case = check.gen_indexed(base, i, fam, fam_idx, tier);
+                let case = driver::gen_case(check.as_ref(), base, i, fam, fam_idx, tier);
                 let _ = seed;
                 let traced = std::env::var("SIM_DET_TRACE_SEED").ok().and_then(|s| s.parse::<u64>().ok()) == Some(seed);
                 let run_t = |c: &scenario::Case, tag: &str| -> driver::ChildResult {
@@ -380,7 +380,7 @@ fn cmd_tracecmp(args: &[String]) -> i32 {
     let fams = check.families(Tier::Quick);
     let i = seed.wrapping_sub(base);
     let (fam, fam_idx) = driver::family_of(&fams, i);
-    let case = check.gen_indexed(base, i, fam, fam_idx, Tier::Quick);
+    let case = driver::gen_case(check.as_ref(), base, i, fam, fam_idx, Tier::Quick);
     std::env::set_var("SIM_TRACE_RANGE", "0-100000000");
     std::env::set_var("SIM_CHILD_STDERR", "1");
     let run = |c: &scenario::Case, path: &str| -> driver::ChildResult {
